@@ -16,10 +16,10 @@ import (
 	"html"
 	"io"
 	"net/http"
-	"time"
 	"net/url"
 	"regexp"
 	"strings"
+	"time"
 	"unicode/utf8"
 
 	"github.com/oauth2-proxy/oauth2-proxy/v7/pkg/logger"
